@@ -23,7 +23,7 @@ ID = "C07"
 RULE = (
     "Generated: instance (all shapes incl. flexible, zero durations) x "
     "composition of 1-4 built-in filters (each spelled as string, enum member "
-    "or function) installed in the dispatcher x choice sequence (each step "
+    "or function; optionally nested - a composition used as a member of another) installed in the dispatcher x choice sequence (each step "
     "among available or among all ready operations); in EVERY state along the "
     "history, for every non-empty sub-list L of the ready operations (all "
     "subsets when <=4 ready, else the full list plus generated masks) each of "
@@ -87,6 +87,7 @@ def strategy(tier):
         {
             "inst": inst,
             "comp": comp,
+            "nest": gen.pick([0, 1, 0, 2]),
             "history": gen.sized_lists(step, 30),
             "masks": st.lists(st.integers(1, 63), max_size=4),
         }
@@ -192,7 +193,18 @@ def check_case(case, ctx):
     inst, comp, history, masks = case["inst"], case["comp"], case["history"], case["masks"]
     instance = build_instance(inst)
     names = [c[0] for c in comp]
-    composite = create_composite_operation_filter([spell(n, h) for n, h in comp])
+    members = [spell(n, h) for n, h in comp]
+    nest = case.get("nest", 0)
+    if nest and len(members) >= 1:
+        # compositions are filters themselves and may be members of others
+        h = (len(members) + 1) // 2
+        head = create_composite_operation_filter(members[:h])
+        tail = members[h:]
+        if nest == 2 and tail:
+            tail = [create_composite_operation_filter(tail)]
+        members = [head] + tail
+        ctx.label("nested_composition")
+    composite = create_composite_operation_filter(members)
     for n, h in comp:
         ctx.check(
             ready_operations_filter_factory(spell(n, h)) is FUNCS[n],
